@@ -1,5 +1,178 @@
 //! Harness binary for property C13 (line protocol; see /verif/vlib/BUILDER_GUIDE.md).
+//!   ssa <hex source>         -> `<model input dump> => <canonical SsaAnalysisResult>` | `syntax`
+//!   sig <hex source>         -> `<toplevel dump> => <canonical ModuleSignature>` | `syntax`
+//!   check <hex json>         -> verdict of the real parser + checker on a set of modules (with std)
+use samlang_errors::ErrorSet;
+use samlang_heap::{Heap, ModuleReference, PStr};
+use samverif_harness::scopedump::Dumper;
+use samverif_harness::util::*;
+use std::collections::HashMap;
+use std::panic::{AssertUnwindSafe, catch_unwind};
+
+fn ssa(src: &str) -> String {
+  let mut heap = Heap::new();
+  let mref = heap.alloc_module_reference_from_string_vec(vec!["Test".to_string()]);
+  let mut errors = ErrorSet::new();
+  let m = samlang_parser::parse_source_module_from_text(src, mref, &mut heap, &mut errors);
+  if errors.has_errors() {
+    return "syntax".to_string();
+  }
+  let mut ssa_errors = ErrorSet::new();
+  let r = samlang_checker::perform_ssa_analysis_on_module(mref, &m, &mut ssa_errors);
+  let mut d = Dumper::new(&heap, mref);
+  d.module(&m);
+  let res = d.render(&r, &ssa_errors);
+  format!("{}=> {}", d.out, res)
+}
+
+/// Canonical form of `build_module_signature`: which declaration won for every name.
+fn sig(src: &str) -> String {
+  use samlang_ast::source::*;
+  use samlang_checker::type_::TypeDefinitionSignature;
+  let mut heap = Heap::new();
+  let mref = heap.alloc_module_reference_from_string_vec(vec!["Test".to_string()]);
+  let mut errors = ErrorSet::new();
+  let m = samlang_parser::parse_source_module_from_text(src, mref, &mut heap, &mut errors);
+  if errors.has_errors() {
+    return "syntax".to_string();
+  }
+  let mut d = Dumper::new(&heap, mref);
+  // model input: per toplevel (top NAME LOC class? private? ntparams nsupers (m NAME LOC method? nargs)* (td ...))
+  let mut dump = String::new();
+  for t in &m.toplevels {
+    let l = d.loc(&t.loc());
+    dump.push_str(&format!(
+      "top {} {} {} {} {} {} ",
+      t.name().name.as_str(&heap),
+      l,
+      t.is_class() as u8,
+      t.is_private() as u8,
+      t.type_parameters().map(|it| it.parameters.len()).unwrap_or(0),
+      t.extends_or_implements_nodes().map(|it| it.nodes.len()).unwrap_or(0)
+    ));
+    for mem in t.members_iter() {
+      let ml = d.loc(&mem.loc);
+      dump.push_str(&format!(
+        "m {} {} {} {} ",
+        mem.name.name.as_str(&heap),
+        ml,
+        mem.is_method as u8,
+        mem.parameters.parameters.len()
+      ));
+    }
+    match t.type_definition() {
+      None => dump.push_str("tdnone "),
+      Some(TypeDefinition::Struct { loc, fields, .. }) => {
+        let tl = d.loc(loc);
+        dump.push_str(&format!("tdstruct {} {} ", tl, fields.len()));
+        for f in fields {
+          dump.push_str(&format!("f {} ", f.name.name.as_str(&heap)));
+        }
+      }
+      Some(TypeDefinition::Enum { loc, variants, .. }) => {
+        let tl = d.loc(loc);
+        dump.push_str(&format!("tdenum {} ", tl));
+        for v in variants {
+          dump.push_str(&format!(
+            "v {} {} ",
+            v.name.name.as_str(&heap),
+            v.associated_data_types.as_ref().map(|it| it.annotations.len()).unwrap_or(0)
+          ));
+        }
+      }
+    }
+    dump.push_str("end ");
+  }
+  let s = samlang_checker::build_module_signature(mref, &m);
+  let mut ifaces: Vec<String> = s
+    .interfaces
+    .iter()
+    .map(|(name, i)| {
+      let mem = |m: &HashMap<PStr, samlang_checker::type_::MemberSignature>| {
+        let mut v: Vec<String> = m
+          .iter()
+          .map(|(n, ms)| {
+            format!("{}@{}/{}", n.as_str(&heap), d.loc_str(&ms.type_.reason.use_loc), ms.type_.argument_types.len())
+          })
+          .collect();
+        v.sort();
+        v.join("+")
+      };
+      let td = match &i.type_definition {
+        None => "none".to_string(),
+        Some(TypeDefinitionSignature::Struct(fs)) => {
+          format!("struct:{}", fs.iter().map(|f| f.name.as_str(&heap).to_string()).collect::<Vec<_>>().join("+"))
+        }
+        Some(TypeDefinitionSignature::Enum(vs)) => format!(
+          "enum:{}",
+          vs.iter().map(|v| format!("{}/{}", v.name.as_str(&heap), v.types.len())).collect::<Vec<_>>().join("+")
+        ),
+      };
+      format!(
+        "{}{{p{} t{} s{} {} F[{}] M[{}]}}",
+        name.as_str(&heap),
+        i.private as u8,
+        i.type_parameters.len(),
+        i.super_types.len(),
+        td,
+        mem(&i.functions),
+        mem(&i.methods)
+      )
+    })
+    .collect();
+  ifaces.sort();
+  format!("{}=> {}", dump, ifaces.join(" "))
+}
+
+/// Real parser + checker on a multi-module program (std added like the CLI does).
+fn check(json: &str) -> String {
+  let v: serde_json::Value = serde_json::from_str(json).expect("json");
+  let mut heap = Heap::new();
+  let mut error_set = ErrorSet::new();
+  let mut parsed = HashMap::new();
+  let mut texts: HashMap<ModuleReference, String> = HashMap::new();
+  for (m, s) in samlang_parser::builtin_std_raw_sources(&mut heap) {
+    texts.insert(m, s);
+  }
+  for (name, text) in v.as_object().expect("object") {
+    let parts: Vec<String> = name.split('.').map(|s| s.to_string()).collect();
+    let m = heap.alloc_module_reference_from_string_vec(parts);
+    texts.insert(m, text.as_str().unwrap().to_string());
+  }
+  for (m, s) in &texts {
+    let p = samlang_parser::parse_source_module_from_text(s, *m, &mut heap, &mut error_set);
+    parsed.insert(*m, p);
+  }
+  let _ = samlang_checker::type_check_sources(&parsed, &mut error_set);
+  if !error_set.has_errors() {
+    return "accepted 0".to_string();
+  }
+  let mut kinds: Vec<String> = error_set
+    .errors()
+    .iter()
+    .map(|e| {
+      let d = format!("{:?}", e.detail);
+      d.split(|c: char| !c.is_ascii_alphanumeric()).next().unwrap_or("?").to_string()
+    })
+    .collect();
+  kinds.sort();
+  format!("rejected {} {}", kinds.len(), kinds.join(","))
+}
+
 fn main() {
-  eprintln!("c13: not implemented yet");
-  std::process::exit(2);
+  std::panic::set_hook(Box::new(|_| {}));
+  for_each_line(|line| {
+    let t: Vec<&str> = line.splitn(2, ' ').collect();
+    let arg = if t.len() > 1 { unhex_str(t[1]) } else { String::new() };
+    let r = catch_unwind(AssertUnwindSafe(|| match t[0] {
+      "ssa" => ssa(&arg),
+      "sig" => sig(&arg),
+      "check" => check(&arg),
+      _ => "bad-op".to_string(),
+    }));
+    match r {
+      Ok(s) => s,
+      Err(e) => format!("panic {}", panic_msg(&e).replace('\n', " ")),
+    }
+  });
 }
